@@ -25,8 +25,8 @@ void verif_perturb_set(uint32_t seed, unsigned one_in, unsigned max_us);
 
 const char *verif_property = "C16";
 const char *verif_class_names[] = { "control_while_worker_busy", "backlog_limit_hit", "undocumented_order", "reinit_after_fini", "control_before_start",
-	"log_before_start", "never_started", "two_threaded_targets", "b_disabled_with_backlog", "big_burst", "fini_with_backlog", NULL };
-enum { K_CTLBUSY, K_BACKLOG, K_ORDER, K_REINIT, K_PRECTL, K_PRELOG, K_NOSTART, K_TWO, K_BDIS, K_BURST, K_FINIBACK };
+	"log_before_start", "never_started", "two_threaded_targets", "b_disabled_with_backlog", "big_burst", "fini_with_backlog", "file_target", NULL };
+enum { K_CTLBUSY, K_BACKLOG, K_ORDER, K_REINIT, K_PRECTL, K_PRELOG, K_NOSTART, K_TWO, K_BDIS, K_BURST, K_FINIBACK, K_FILE };
 const char *verif_rule =
 	"case = 1-2 sessions of init / open targets / set-threaded / control ops / thread-start / bursts of m messages of size z / control ops (A: reconfigure only, B: enable, disable, close) / "
 	"consumer delays / freeze of the idle logging thread + a burst beyond the 512000-byte backlog / fini, in generated order (incl. control and logging before thread-start, no thread-start "
@@ -134,7 +134,22 @@ extern "C" int verif_case(const uint8_t *data, size_t size, struct verif_report 
 				if (a_thr && b_thr) VCLASS(r, K_TWO);
 			}
 		}
-		VLOG(r, "session %d: A threaded=%d, B %s threaded=%d enabled=%d, thread will%s be started\n", s, a_thr, b_open ? "open" : "absent", b_thr, b_enabled, will_start ? "" : " NOT");
+		/* a target of the built-in file logger, enabled for the whole session: what most users have */
+		bool has_f = vr_bool(&v), f_thr = vr_u8(&v) % 4 != 0; int fid = -1; char fpath[512] = "";
+		if (has_f) {
+			snprintf(fpath, sizeof fpath, "%s/c16-%d-%d.log", verif_scratch_dir(), (int)getpid(), s);
+			unlink(fpath);
+			fid = qb_log_file_open(fpath);
+			if (fid < 0) has_f = false;
+			else {
+				qb_log_filter_ctl(fid, QB_LOG_FILTER_ADD, QB_LOG_FILTER_FILE, "t.c", LOG_TRACE);
+				qb_log_format_set(fid, "%b");
+				if (f_thr) qb_log_ctl(fid, QB_LOG_CONF_THREADED, QB_TRUE);
+				qb_log_ctl(fid, QB_LOG_CONF_ENABLED, QB_TRUE);
+				VCLASS(r, K_FILE);
+			}
+		}
+		VLOG(r, "session %d: A threaded=%d, B %s threaded=%d enabled=%d, file target %s threaded=%d, thread will%s be started\n", s, a_thr, b_open ? "open" : "absent", b_thr, b_enabled, has_f ? "open" : "absent", f_thr, will_start ? "" : " NOT");
 		vop(r, 0xC16, a_thr * 8 + has_b * 4 + b_thr * 2 + will_start, s);
 
 		auto control_a = [&](unsigned k) {
@@ -244,6 +259,24 @@ extern "C" int verif_case(const uint8_t *data, size_t size, struct verif_report 
 				VFAIL(r, missing ? "message-lost" : "bogus-loss-report", "session %d: %ld of %zu messages never reached target A (and %ld were reported lost) although the backlog limit cannot have been reached (%zu bytes posted in total)", s, missing, postedA.size(), lost_reported, bytes_posted);
 			else if (missing != lost_reported)
 				VFAIL(r, "loss-accounting", "session %d: %ld messages never reached target A when qb_log_fini returned, %ld were reported lost", s, missing, lost_reported);
+		}
+		/* ---- the file target: what is in the file when qb_log_fini has returned */
+		if (!r->fail && has_f) {
+			std::vector<long> gf;
+			FILE *fp = fopen(fpath, "r");
+			if (fp) { static char line[4096]; while (fgets(line, sizeof line, fp)) if (line[0] == 'm' && isdigit((unsigned char)line[1])) gf.push_back(atol(line + 1)); fclose(fp); }
+			unlink(fpath);
+			VLOG(r, "  after fini: the file holds %zu of %zu messages\n", gf.size(), postedA.size());
+			for (size_t i = 1; i < gf.size(); i++) if (gf[i] <= gf[i - 1]) { VFAIL(r, gf[i] == gf[i - 1] ? "duplicate-delivery" : "out-of-order", "the file target has message %ld after %ld", gf[i], gf[i - 1]); break; }
+			if (!r->fail) { size_t j = 0; for (long g : gf) { while (j < postedA.size() && postedA[j] != g) j++; if (j == postedA.size()) { VFAIL(r, "invented-message", "the file holds message %ld which was not posted in this session", g); break; } } }
+			if (!r->fail) {
+				long missing = (long)postedA.size() - (long)gf.size();
+				bool queued = f_thr && started;		/* only then records for it go through the backlog (and can be dropped, with a report) */
+				if ((!queued || bytes_posted < 500000) && missing != 0)
+					VFAIL(r, "message-lost", "session %d: %ld of %zu messages are not in the file of the %s file target after qb_log_fini (%zu bytes posted in total, %ld reported lost)", s, missing, postedA.size(), f_thr ? "threaded" : "direct", bytes_posted, lost_reported);
+				else if (queued && missing != lost_reported)
+					VFAIL(r, "loss-accounting", "session %d: %ld messages are missing in the threaded file target's file, %ld were reported lost", s, missing, lost_reported);
+			}
 		}
 	}
 	if (!r->fail && closed_under_writer.load()) VFAIL(r, "closed-under-writer", "a target's close callback ran %d time(s) while the logging thread was inside that target's logger", closed_under_writer.load());
